@@ -20,3 +20,63 @@ def child_incr(v, n, locked):
                 v.value += 1
         else:
             v.value += 1
+
+
+# ---- chains: every level works on the object it received and hands it on to a process it starts itself
+def snapshot(obj):
+    import ctypes
+    raw = obj.get_obj() if hasattr(obj, 'get_obj') else obj
+    return list(raw) if isinstance(raw, ctypes.Array) else raw.value
+
+
+def act(obj, level, n):
+    """n times: value += level  /  every element j += level * (j + 1); under the object's lock if it has one"""
+    import ctypes
+    sync = hasattr(obj, 'get_lock')
+    raw = obj.get_obj() if sync else obj
+    if isinstance(raw, ctypes.Array):
+        for _ in range(n):
+            for j in range(len(raw)):
+                if sync:
+                    with obj.get_lock():
+                        obj[j] += level * (j + 1)
+                else:
+                    obj[j] += level * (j + 1)
+    else:
+        for _ in range(n):
+            if sync:
+                with obj.get_lock():
+                    obj.value += level
+            else:
+                obj.value += level
+
+
+def chain_level(level, depth, method, obj, conn, n):
+    import os
+    rep = dict(level=level, pid=os.getpid())
+    try:
+        rep['saw'] = snapshot(obj)
+        act(obj, level, n)
+        rep['wrote'] = snapshot(obj)
+        if level < depth:
+            import billiard
+            ctx = billiard.get_context(method)
+            pc, cc = ctx.Pipe()
+            p = ctx.Process(target=chain_level, args=(level + 1, depth, method, obj, cc, n))
+            try:
+                p.start()
+            except Exception as exc:
+                rep['start_error'] = '%s: %s' % (type(exc).__name__, str(exc)[:300])
+            else:
+                cc.close()
+                try:
+                    rep['sub'] = pc.recv() if pc.poll(60) else None
+                except EOFError:
+                    rep['sub'] = None
+                p.join(30)
+                rep['exitcode'] = p.exitcode
+        rep['after'] = snapshot(obj)
+    except Exception as exc:
+        rep['error'] = '%s: %s' % (type(exc).__name__, str(exc)[:300])
+    conn.send(rep)
+    conn.close()
